@@ -37,7 +37,7 @@ RULE = ("seeded histories of 4-25 public-API operations (operators via 5 routes,
         "shape or an equation object; distinct = distinct (pools, operations)")
 PROBES = ["probes/compared_ops", "probes/same_spec_distinct_grids", "probes/bc_kind_varied_same_grid_op",
           "probes/eq_reused_on_second_state", "probes/interp_after_relink", "faults/gc", "faults/poison",
-          "faults/clear_cache", "faults/drop", "probes/exceptions_agreed"]
+          "faults/clear_cache", "faults/drop", "probes/exceptions_agreed", "probes/linked_array_changed_in_place"]
 COMPONENTS = {
     "real": ["everything: grids, fields, collections, boundary conditions, operators (numba backend in python mode, scipy backend), "
              "interpolators, PDE classes, expression parser, solvers, controller; all caches of pde.tools.cache, the backend "
@@ -276,6 +276,23 @@ def gen_plan(rng, tier, idx):
                 motif = motif[2:] + motif[:2]
             pos = rng.randint(0, len(ops))
             ops[pos:pos] = motif
+    # motif: boundary values linked to user-owned arrays (bc.link_value): two arrays with equal contents are linked to two
+    # conditions on the same grid, one array is changed in place, and the operators are requested again
+    if rng.random() < 0.15:
+        cand = [fid for fid, fsp in fields.items() if fsp["rank"] == 0 and fsp["dtype"] == "float"]
+        if cand:
+            fid = rng.choice(cand)
+            name = rng.choice(["laplace", "laplace", "gradient", "gradient_squared"])
+
+            def lop(slot):
+                return {"op": "linked_op", "f": fid, "name": name, "slot": slot, "backend": rng.choice(["numba", "numba", "scipy"]),
+                        "via": rng.choice(["make_operator", "make_operator", "ghost"])}
+
+            motif = [lop(0), lop(1), {"op": "set_linked", "slot": rng.randrange(2), "value": rng.choice([5.0, -2.0, 0.0])}, lop(1), lop(0)]
+            if rng.random() < 0.3:
+                motif.insert(3, {"op": "set_linked", "slot": rng.randrange(2), "value": 3.0})
+            pos = rng.randint(0, len(ops))
+            ops[pos:pos] = motif
     # motif: ONE equation object whose conditions are given by name meets two grids that differ in nothing but ONE
     # attribute: the periodicity of an axis (same class, shape and bounds), or a bound that differs by a few parts per
     # million, or bounds that are both tiny in absolute terms (nanometre boxes in SI units)
@@ -469,6 +486,14 @@ def execute(plan):
             else:
                 obj *= 1.5
             log.add(k, kind, "ok", tgt, op["mode"])
+            continue
+        if kind == "set_linked":
+            # the user changes, in place, the arrays of one slot that boundary values are linked to
+            for key, arr in getattr(L, "linked", {}).items():
+                if key[0] == int(op["slot"]):
+                    arr[...] = float(op["value"])
+            bump("probes", "linked_array_changed_in_place")
+            log.add(k, kind, op["slot"], op["value"])
             continue
         if kind in ("gc", "poison", "clear_cache", "drop"):
             tgt = op.get("target", "")
